@@ -623,7 +623,9 @@ impl Xot {
                         {
                             undeclare_nodes.push(node);
                             // from here on down the default namespace is undeclared
+                            // (this replaces a default declaration on the element itself)
                             fullname_serializer.pop(!declarations.is_empty());
+                            declarations.retain(|(prefix_id, _)| *prefix_id != self.empty_prefix());
                             declarations.push((self.empty_prefix(), self.no_namespace()));
                             fullname_serializer.push(declarations.clone());
                         }
